@@ -160,6 +160,9 @@ type fnCtx struct {
 	lastVisited string
 	prefix string
 	callOf map[string]string
+	retHook func(st *state, r *ssa.Return)
+	inlineDepth int
+	inlineStack []*ssa.Function
 	aliasOf map[string]Val
 	aliasCell map[*ssa.Alloc]Val
 	freshRefs map[string]bool
